@@ -718,7 +718,6 @@ theorem layerResult_relabel {f : MeshFields} {pp : Option (List Nat)} {cp : Opti
     (h : PermHyp f pp cp) :
     Relabel f (layerResult f pp cp) (effPerm f pp) (effG pp) (effCpf cp) := by
   obtain ⟨h1, h2, h3, h4⟩ := effPerm_spec h
-  have dummy : PermutedMesh := ⟨f.mesh, pp, cp, none⟩
   refine ⟨h1, h2, h3, h4, rfl, rfl, fun b hb => (effCpf_perm h b hb).1, ?_, ?_⟩
   · intro j hj
     simp only [layerResult, List.map_map]
